@@ -112,7 +112,7 @@ def diff_sequence_multilevel(a, b, path="", config=None):
         config = DiffConfig()
 
     # Invoke multilevel snake computation algorithm
-    compares = config.predicates[path or '/']
+    compares = config.get_predicates(path or '/')
     snakes = compute_snakes_multilevel(a, b, compares)
 
     # Convert snakes to diff
@@ -126,7 +126,7 @@ def diff_lists(a, b, path="", config=None, shallow_diff=None):
         config = DiffConfig()
 
     # If multiple compares are provided to this path, delegate to multilevel algorithm
-    compares = config.predicates[path or '/']
+    compares = config.get_predicates(path or '/')
     if len(compares) > 1:
         assert shallow_diff is None
         return diff_sequence_multilevel(a, b, path=path, config=config)
